@@ -251,32 +251,17 @@ def conquer (old new : List α) : (fuel : Nat) → (os oe ns ne : Nat) → V →
         | .found x y vf vb =>
           if (os : Int) ≤ x ∧ x ≤ oe ∧ (ns : Int) ≤ y ∧ y ≤ ne
               ∧ ¬ (x = os ∧ y = ns) ∧ ¬ (x = oe ∧ y = ne) then
-            match conquer old new fuel os x.toNat ns y.toNat vf vb with
-            | .ok (h1, vf, vb) =>
-              match conquer old new fuel x.toNat oe y.toNat ne vf vb with
-              | .ok (h2, vf, vb) => .ok (h1 ++ h2, vf, vb)
-              | .invalidSplit => .invalidSplit
-              | .outOfFuel => .outOfFuel
-              | .panic p => .panic p
-            | .invalidSplit => .invalidSplit
-            | .outOfFuel => .outOfFuel
-            | .panic p => .panic p
+            (conquer old new fuel os x.toNat ns y.toNat vf vb).bind fun r1 =>
+            (conquer old new fuel x.toNat oe y.toNat ne r1.2.1 r1.2.2).bind fun r2 =>
+            .ok (r1.1 ++ r2.1, r2.2.1, r2.2.2)
           else .invalidSplit
-    match mid with
-    | .ok (h, vf, vb) => .ok (pre ++ h ++ sufHook, vf, vb)
-    | .invalidSplit => .invalidSplit
-    | .outOfFuel => .outOfFuel
-    | .panic p => .panic p
+    mid.bind fun r => .ok (pre ++ r.1 ++ sufHook, r.2.1, r.2.2)
 
 /-- `diff(d, old, 0..old.len(), new, 0..new.len())` with the given fuel (`d.finish()` of both hooks
     used with it is a no-op). -/
 def diffFuel (fuel : Nat) (old new : List α) : Res (List Hook) :=
   let md := maxD old.length new.length
-  match conquer old new fuel 0 old.length 0 new.length (V.new md) (V.new md) with
-  | .ok (h, _, _) => .ok h
-  | .invalidSplit => .invalidSplit
-  | .outOfFuel => .outOfFuel
-  | .panic p => .panic p
+  (conquer old new fuel 0 old.length 0 new.length (V.new md) (V.new md)).bind fun r => .ok r.1
 
 /-- `diff` with enough fuel (`Proofs.Myers.diff_ne_outOfFuel`). -/
 def diff (old new : List α) : Res (List Hook) := diffFuel (old.length + new.length + 1) old new
